@@ -230,6 +230,19 @@ func (c *Ctx) Sample(v interface{}) {
 	}
 }
 
+// Checkpoint writes a cumulative summary; the parent uses the last one of a
+// file, so a later death loses at most the cases since the last checkpoint.
+func (c *Ctx) Checkpoint() {
+	if c.outFile == nil {
+		return
+	}
+	rec := sumRec{T: "ckpt", Prop: c.Prop, Variant: c.Variant, Shard: c.Shard, Evals: c.evals, Cells: c.cells, Counters: c.counters, Samples: c.samples, ViolN: c.violN, Last: c.curCase}
+	b, _ := json.Marshal(rec)
+	c.out.Write(b)
+	c.out.WriteByte('\n')
+	c.out.Flush()
+}
+
 func (c *Ctx) Finish() {
 	rec := sumRec{T: "sum", Prop: c.Prop, Variant: c.Variant, Shard: c.Shard, Evals: c.evals, Cells: c.cells, Counters: c.counters, Samples: c.samples, ViolN: c.violN, Last: c.curCase}
 	b, _ := json.Marshal(rec)
